@@ -534,5 +534,14 @@ async def process_changing_cause(
     if cause.reason == causes.Reason.NOOP:
         logger.debug("Something has changed, but we are not interested (the essence is the same).")
 
+        # If the essence has returned to the last-handled state while a handling cycle was still
+        # in progress (e.g. the change was reverted), that cycle is abandoned: nothing is left to do.
+        # Purge its leftovers -- otherwise, they stay forever and confuse the next handling cycles.
+        storage = settings.persistence.progress_storage
+        owned_handlers = registry._changing.get_resource_handlers(resource=cause.resource)
+        state = progression.State.from_storage(body=cause.body, storage=storage, handlers=owned_handlers)
+        if len(state):
+            state.purge(body=cause.body, patch=cause.patch, storage=storage, handlers=owned_handlers)
+
     # The delay is then consumed by the main handling routine (in different ways).
     return delays
